@@ -189,3 +189,37 @@ impl ConnectionState {
             .map(|(callee_serial, callee_id)| (*callee_serial, callee_id))
     }
 }
+
+#[cfg(feature = "verif-hooks")]
+impl ConnectionState {
+    pub(crate) fn verif_snapshot(&self, id: usize) -> crate::verif::VerifConn {
+        fn sorted<T: Ord>(mut v: Vec<T>) -> Vec<T> {
+            v.sort();
+            v
+        }
+
+        crate::verif::VerifConn {
+            id,
+            version: (self.version.major(), self.version.minor()),
+            queue_open: !self.send.is_closed(),
+            objects: sorted(self.objects.iter().map(|c| *c.0.as_bytes()).collect()),
+            events: sorted(
+                self.events
+                    .iter()
+                    .map(|(c, ids)| (*c.0.as_bytes(), sorted(ids.iter().copied().collect())))
+                    .collect(),
+            ),
+            all_events: sorted(self.all_events.iter().map(|c| *c.0.as_bytes()).collect()),
+            subscriptions: sorted(self.subscriptions.iter().map(|c| *c.0.as_bytes()).collect()),
+            senders: sorted(self.senders.iter().map(|c| *c.0.as_bytes()).collect()),
+            receivers: sorted(self.receivers.iter().map(|c| *c.0.as_bytes()).collect()),
+            bus_listeners: sorted(self.bus_listeners.iter().map(|c| *c.0.as_bytes()).collect()),
+            calls: sorted(
+                self.calls
+                    .iter()
+                    .map(|(caller, (callee, id))| (*caller, *callee, id.verif_id()))
+                    .collect(),
+            ),
+        }
+    }
+}
